@@ -23,6 +23,7 @@ import (
 	"strings"
 
 	"github.com/llir/ll/ast"
+	"github.com/llir/llvm/internal/enc"
 	"github.com/llir/llvm/ir"
 	"github.com/llir/llvm/ir/types"
 	"github.com/llir/llvm/ir/value"
@@ -51,11 +52,11 @@ func newFuncGen(gen *generator, f *ir.Func) *funcGen {
 
 // resolveLocals resolves the local variables (function parameters, basic
 // blocks, results of instructions and terminators) of the given function body.
-func (fgen *funcGen) resolveLocals(old ast.FuncBody) error {
+func (fgen *funcGen) resolveLocals(oldParams []ast.Param, old ast.FuncBody) error {
 	// Index local identifiers and create scaffolding IR local variables (without
 	// bodies but with types).
 	oldBlocks := old.Blocks()
-	if err := fgen.createLocals(oldBlocks); err != nil {
+	if err := fgen.createLocals(oldParams, oldBlocks); err != nil {
 		return errors.WithStack(err)
 	}
 	// Translate AST instructions to IR.
@@ -84,11 +85,15 @@ type local interface {
 //
 // post-condition: fgen.locals maps from local identifier (without '%' prefix)
 // to corresponding skeleton IR value.
-func (fgen *funcGen) createLocals(oldBlocks []ast.BasicBlock) error {
+func (fgen *funcGen) createLocals(oldParams []ast.Param, oldBlocks []ast.BasicBlock) error {
 	// Create local variable skeletons (without bodies but with types).
 	if err := fgen.newLocals(oldBlocks); err != nil {
 		return errors.WithStack(err)
 	}
+	// Record the local variables explicitly numbered %0 in the source; AssignIDs
+	// cannot tell an explicit ID 0 from a local variable without ID (0 doubles
+	// as "not yet assigned") and would silently renumber a misplaced %0.
+	zero := fgen.explicitZeroIDs(oldParams, oldBlocks)
 	// Assign local IDs.
 	//
 	// Note: the type of call instructions and invoke terminators must be
@@ -97,8 +102,50 @@ func (fgen *funcGen) createLocals(oldBlocks []ast.BasicBlock) error {
 	if err := fgen.f.AssignIDs(); err != nil {
 		return errors.WithStack(err)
 	}
+	for _, v := range zero {
+		if v.ID() != 0 {
+			return errors.Errorf("invalid local ID in function %q, expected %s, got %s", fgen.f.Ident(), enc.LocalID(v.ID()), enc.LocalID(0))
+		}
+	}
 	// Index local identifiers.
 	return fgen.indexLocals()
+}
+
+// explicitZeroIDs returns the local variables (function parameters, basic
+// blocks, results of instructions and terminators) of the given function that
+// are explicitly numbered %0 in the source.
+//
+// pre-condition: fgen.newLocals has been invoked.
+func (fgen *funcGen) explicitZeroIDs(oldParams []ast.Param, oldBlocks []ast.BasicBlock) []local {
+	var zero []local
+	isZero := func(ident ir.LocalIdent) bool {
+		return ident == ir.LocalIdent{}
+	}
+	f := fgen.f
+	for i, oldParam := range oldParams {
+		if n, ok := oldParam.Name(); ok && isZero(localIdent(n)) {
+			zero = append(zero, f.Params[i])
+		}
+	}
+	for i, oldBlock := range oldBlocks {
+		block := f.Blocks[i]
+		if n, ok := oldBlock.Name(); ok && isZero(labelIdent(n)) {
+			zero = append(zero, block)
+		}
+		for j, oldInst := range oldBlock.Insts() {
+			if old, ok := oldInst.(*ast.LocalDefInst); ok && isZero(localIdent(old.Name())) {
+				if v, ok := block.Insts[j].(local); ok {
+					zero = append(zero, v)
+				}
+			}
+		}
+		if old, ok := oldBlock.Term().(*ast.LocalDefTerm); ok && isZero(localIdent(old.Name())) {
+			if v, ok := block.Term.(local); ok {
+				zero = append(zero, v)
+			}
+		}
+	}
+	return zero
 }
 
 // newLocals creates scaffolding IR local variables (without bodies but with
